@@ -5,6 +5,36 @@ first_missed = {
  "C13-b": "missed at first: C13 only compared GetTime inside 1970..2200 (outside was left to C15, which does catch it). C13 now compares the whole 60-bit range with google/uuid under a separate key.",
  "C02-a": "missed at first: the domain alphabet had no supplementary-plane character. Added 𐐨, d😀m and a CJK domain.",
  "C18-b": "missed at first: every TCP harness client worked in lock-step (send, wait for the response, send). Added pipelined scenarios (two frames in one write, two back-to-back writes, three requests cut inside a length prefix).",
+ "C01-r2a": "missed at first (LMHash fast path returning one shared slice, poisoned when a caller wipes its copy): added mc/purity call histories for every hash function.",
+ "C01-r2b": "missed at first (exactly U+10000 mis-encoded): the rune alphabet now holds both sides of every UTF-16 boundary (U+D7FF, U+E000, U+FFFF, U+10000, U+10001, U+10FFFF).",
+ "C03-r2a": "missed at first (Data.Unmarshal of an empty block keeps the old bytes of a reused object): added mc/objhist object histories for Data and Parameters.",
+ "C03-r2b": "first run ended as a HARNESS ERROR (library panic at 65534/65535 data bytes outside vf.Try): the limit cases are wrapped, and vf.Main now turns any escaped panic into a violation.",
+ "C04-r2a": "missed at first (terminator appended into the spare capacity of the caller's slice): every assignment is also encoded with its byte fields re-homed back to back in one buffer (smbgen.Rehome).",
+ "C04-r2b": "missed at first (zero-length dialect string): dialect lists with an empty entry in every position added to the lattice.",
+ "C05-r2a": "missed at first (stale Length when a used SMB_STRING gets a new Buffer): object histories (objhist) for SMB_STRING in all five formats.",
+ "C06-r2a": "missed at first (resume key re-encodes a cached block): object histories for SMB_RESUME_KEY with a single field changed between two encodings.",
+ "C07-r2a": "missed at first (index out of range only when len < WordCount <= cap of a reused Words slice): object histories on decoders with well-formed input; the state key includes slice capacities.",
+ "C07-r2b": "missed at first (allocation from a decimal count field): every digit run of a textual seed is replaced by decimal extremes.",
+ "C07-r2c": "missed at first (newly added compression-pointer support loops): at every position of NBNS/LLMNR seeds a pointer to every offset is written.",
+ "C08-r2a": "missed at first (AuthContext answers the FIRST challenge again): a second, different challenge is processed on the same context and judged like a fresh one.",
+ "C09-r2c": "missed at first (OPT records dropped from the additional section): every RR type 0..260 in every section.",
+ "C11-r2a": "missed at first (Receive reuses one buffer): every message returned is held and compared again after all later Receive calls.",
+ "C11-r2b": "missed at first (length wraps at 2^24): payload lengths around 2^24 added.",
+ "C12-r2b": "reported MISSED by the first batch run, CAUGHT when re-run (30 violations); the first run coincided with heavy machine load — no change to the check.",
+ "C13-r2b": "missed at first: UUIDv2.GetTime is now compared over the whole 60-bit range.",
+ "C13-r2c": "missed at first (Unmarshal of a buffer longer than 16 bytes reads its tail): trailing-byte suffixes added.",
+ "C14-r2c": "missed at first (DN with a percent sign): % and backslash added to the DN alphabet.",
+ "C15-r2a": "missed at first (DateTime.ToBytes returns one shared array): two encodings are held at the same time.",
+ "C15-r2c": "missed at first (non-AD source, version 2 — the combination the library calls not fully supported): decode followed by ToBytes must reproduce the 8 bytes for every source/version.",
+ "C16-r2a": "missed at first (memo keyed by the caller's own buffer): mc/purity incl. the recycled-input-buffer history.",
+ "C19-r2a": "missed at first (Name slice reused across FromBytes calls): all ordered pairs of parses on one receiver with the first result kept.",
+ "C20-r2a": "missed at first (cache hands out one shared *TCPPortRange): parse, edit the result, parse again.",
+ "C20-r2b": "missed at first (IPv6 range fast path): the six neighbours of both end points of every boundary range are probed.",
+ "C20-r2c": "missed at first (struct equality incl. MaskBits in IPv4Range.Contains): every prefix-length annotation on probe/start/end.",
+ "C18-r2a": "missed at first (two alternating read buffers need three datagrams in flight): the 3-client scenarios now also run in the quick tier.",
+ "C18-r2c": "missed at first (all connections stored under one key): Stop with TWO idle open connections.",
+ "C18-r2d": "missed at first (describe handler keeps the logger lock): the logger package is instrumented too and the library's HandlerDescribePacket is part of a scenario with a header-only query.",
+ "C18-r2e": "missed at first (rcode tested before the transaction id): the scripted peer also sends a negative answer with a foreign id before the genuine one.",
  "C04-a": "missed at first: no Unicode string value whose UTF-16LE bytes contain 00 00 straddling two code units. Added such values (Ā, aĀb, …) to the lattice of every Unicode string field.",
 }
 rows=[]
